@@ -6,6 +6,11 @@ import sys
 import traceback
 
 
+def _safe(text):
+    """Printable form: details may quote data with unpaired surrogates."""
+    return str(text).encode("utf-8", "backslashreplace").decode("utf-8")
+
+
 def main():
     cid = sys.argv[1]
     sys.path.insert(0, os.path.dirname(os.path.dirname(os.path.abspath(__file__))))
@@ -20,7 +25,7 @@ def main():
         if vs:
             for x in vs:
                 print(f"VIOLATION property={cid} replay={sys.argv[3]}")
-                print("  " + x.get("detail", "")[:1000])
+                print(_safe("  " + x.get("detail", "")[:1000]))
             sys.exit(1)
         print(f"replay: no violation reproduced for {cid}")
         sys.exit(0)
